@@ -250,6 +250,21 @@ def contains_node(obj):
     return False
 
 
+class Rendezvous:
+    """W calls that each wait until all W have started (C10: max_workers
+    independent ready calls do run in parallel)."""
+
+    def __init__(self, sim, size):
+        self.sim = sim
+        self.size = size
+        self.arrived = 0
+
+    def arrive(self, nid):
+        self.arrived += 1
+        self.sim.probe("rendezvous-arrivals")
+        self.sim.block(lambda: self.arrived >= self.size, None, what=("rendezvous", self.size))
+
+
 class Runtime:
     """Everything the workload consults during one process lifetime."""
 
@@ -280,7 +295,8 @@ class Runtime:
         self.fired = {}
         self.check_args = self.cfg.get("check_args", True)
         self.on_call_start = []
-        self.barrier = None
+        self.barrier = Rendezvous(sim, self.cfg["rendezvous"]) if self.cfg.get("rendezvous") else None
+        self.conservation = None  # first work-conservation violation seen at a quiescent instant
         self.seen_values = {}     # call id -> canon of args seen (last attempt)
         self.on_death = None
 
@@ -371,7 +387,7 @@ class Runtime:
             try:
                 self.cut_point("call", nid)
                 dur = n.get("dur", 0.0)
-                if self.barrier is not None:
+                if self.barrier is not None and n.get("rendezvous"):
                     self.barrier.arrive(nid)
                 sim.sleep(dur, ("call", nid))
                 f = self._fault_for_call(nid, att)
